@@ -42,7 +42,7 @@ impl Prop for C06 {
         prop_oneof![30 => small, 1 => large].boxed()
     }
     fn random_cases(&self, tier: Tier) -> u32 {
-        tier.pick(30_000, 600_000)
+        tier.pick(200_000, 2_000_000)
     }
     fn check(&self, case: &GraphCase) -> Outcome {
         let mut out = Outcome::new();
